@@ -160,6 +160,7 @@ pub fn pick_runcfg(r: &mut Rng, n_txs: usize, pw: &ProfileWeights, seq_pct: u64)
 pub fn reference_for(case: &Case, plan: &FaultPlan, preload: bool, with_reverts: bool) -> RefRun {
     let db = Arc::new(FaultDb::new(case.db.clone(), plan.clone()));
     let db2 = db.clone();
+    let db3 = db.clone();
     let addrs = probe_addrs(case);
     let slots = probe_slots(case);
     let opts = RefOptions {
@@ -169,8 +170,16 @@ pub fn reference_for(case: &Case, plan: &FaultPlan, preload: bool, with_reverts:
         probe_addrs: &addrs,
         probe_slots: &slots,
         before_readback: &move || db2.disarm(),
+        on_tx: &|i| db3.set_marker(i),
     };
-    run_plain(db, &cfg_env(case), &case.block, &case.txs, &opts)
+    let mut r = run_plain(db.clone(), &cfg_env(case), &case.block, &case.txs, &opts);
+    // add database-level accesses (first touches, block hashes) to the semantic access sets
+    for (i, key) in db.touched_by_marker() {
+        if let Some(set) = r.loaded.get_mut(i) {
+            set.insert(key);
+        }
+    }
+    r
 }
 
 /// Universal end-state comparison against the reference (monitor `EQ` + `READBACK`).
@@ -336,7 +345,9 @@ fn trace_tail_head(out: &RunOut, n: usize) -> Vec<String> {
 
 /// Stable signature for matching known findings: monitor plus a normalised message class.
 pub fn finding_signature(v: &Violation) -> String {
-    let class = if v.message.starts_with("bundle: contracts differ") {
+    let class = if v.monitor == "FAULT-EAGER-CODE" {
+        "eager-code-fetch"
+    } else if v.message.starts_with("bundle: contracts differ") {
         "bundle-contracts"
     } else if v.message.starts_with("readback: storage(") {
         "storage-slot"
@@ -372,21 +383,37 @@ pub fn stall_violation(out: &RunOut) -> Option<Violation> {
     })
 }
 
-/// Run the generic differential campaign for `budget`.
-pub fn run_sched_campaign(c: &SchedCampaign, seed: u64, budget: Duration, max_iters: u64) -> ShardReport {
+/// One property campaign: a deterministic function from an iteration seed to monitored runs.
+pub trait Campaign {
+    fn prop(&self) -> &'static str;
+    fn iterate(&self, iter_seed: u64, rep: &mut ShardReport, deadline: Instant);
+}
+
+/// Drive a campaign for `budget`.
+pub fn run_campaign(c: &dyn Campaign, seed: u64, budget: Duration, max_iters: u64) -> ShardReport {
     let start = Instant::now();
+    let deadline = start + budget;
     let mut rep = ShardReport::default();
     let mut r = Rng::new(seed);
-    let weights: Vec<u32> = c.families.iter().map(|f| f.weight).collect();
     let mut iters = 0u64;
     while start.elapsed() < budget && iters < max_iters && rep.findings.len() < 6 {
         iters += 1;
         let iter_seed = r.next();
-        let fi = r.weighted(&weights);
-        run_one_iteration(c, fi, iter_seed, &mut rep);
+        c.iterate(iter_seed, &mut rep, deadline);
     }
     rep.wall_s = start.elapsed().as_secs_f64();
     rep
+}
+
+impl Campaign for SchedCampaign {
+    fn prop(&self) -> &'static str {
+        self.prop
+    }
+    fn iterate(&self, iter_seed: u64, rep: &mut ShardReport, _deadline: Instant) {
+        let weights: Vec<u32> = self.families.iter().map(|f| f.weight).collect();
+        let fi = Rng::new(iter_seed ^ 0xFA31).weighted(&weights);
+        run_one_iteration(self, fi, iter_seed, rep);
+    }
 }
 
 pub fn run_one_iteration(c: &SchedCampaign, fi: usize, iter_seed: u64, rep: &mut ShardReport) {
